@@ -17,6 +17,7 @@ type Plan struct {
 	Addr     []AddrCase    `json:"addr,omitempty"`
 	Auth     []AuthCase    `json:"auth,omitempty"`
 	LateDial *LateDialPlan `json:"late_dial,omitempty"`
+	Codec    *CodecPlan    `json:"codec,omitempty"`
 
 	// Expect, when set by a seeded-defect demonstration or a known finding,
 	// is informational only.
@@ -177,6 +178,9 @@ type ClientOp struct {
 	Method string    `json:"method,omitempty"`
 	// HTTPVariant: "" | bad_accept | bad_ctype | bad_b64 | oversize | put
 	HTTPVariant string `json:"http_variant,omitempty"`
+	// Probe: a plain query with a small, promptly given answer, placed after the
+	// malformed input by the C01 generator.
+	Probe bool `json:"probe,omitempty"`
 }
 
 // TokenSpec is what the fake upstreams do with queries carrying the token.
@@ -340,4 +344,20 @@ type LateDialPlan struct {
 	CallLimitUs   int64   `json:"call_limit_us"`
 	CloseAtUs     int64   `json:"close_at_us"`
 	SecondClose   bool    `json:"second_close,omitempty"`
+}
+
+// CodecPlan: a history of messages for the wire codec (C02 arm codec).
+type CodecPlan struct {
+	Alive int         `json:"alive"` // decoded messages kept alive before the oldest is re-encoded and released
+	Items []CodecItem `json:"items"`
+}
+
+type CodecItem struct {
+	Idx    int        `json:"idx"`
+	Token  string     `json:"token"`
+	Labels [][]byte   `json:"labels"`
+	Type   uint16     `json:"type"`
+	Class  uint16     `json:"class"`
+	Ans    AnswerSpec `json:"ans"`
+	CutAt  int        `json:"cut_at,omitempty"` // > 0: the message is cut short (must be rejected)
 }
